@@ -14,13 +14,17 @@ p1 == <<112,49>>  p2 == <<80,50>>  a1 == <<97,49>>  a2 == <<65,50>>
 SetP(o, gn, pn, q) == [o EXCEPT !.grp = PutParam(o.grp, gn, pn, q)]
 AddP(o, gn, q) == LET gi == GroupIdx(o.grp, gn) IN [o EXCEPT !.grp[gi].p = Append(@, q)]
 AddG(o, g) == [o EXCEPT !.grp = Append(@, g)]
-Build(pn, an, ns, nf) ==
+BuildR(pn, an, ns, nf, prate, arate) ==
   LET o0 == DefaultObject
-      o1 == SetP(o0, sPOINT, sRATE, SetFloats(GetParam(o0.grp, sPOINT, sRATE), <<FOfNat(100)>>))
-      o2 == SetP(o1, sANALOG, sRATE, SetFloats(GetParam(o1.grp, sANALOG, sRATE), <<FOfNat(100 * (IF ns = 0 THEN 1 ELSE ns))>>))
+      o1 == SetP(o0, sPOINT, sRATE, SetFloats(GetParam(o0.grp, sPOINT, sRATE), <<prate>>))
+      o2 == SetP(o1, sANALOG, sRATE, SetFloats(GetParam(o1.grp, sANALOG, sRATE), <<arate>>))
       o3 == UpdateParameters([o2 EXCEPT !.hdr = UpdateHeader(o2.hdr, o2.grp, <<>>, TRUE)], <<>>, pn, an)
       frames == [f \in 1..nf |-> MkFrame(pn, IF an = <<>> THEN 0 ELSE ns, an, f)]
   IN UpdateParameters(o3, frames, <<>>, <<>>)
+Build(pn, an, ns, nf) == BuildR(pn, an, ns, nf, FOfNat(100), FOfNat(100 * (IF ns = 0 THEN 1 ELSE ns)))
+\* 59.94 Hz points, 3 x 59.94 Hz analogs as the nearest floats: the exact quotient of the two floats is 2.99999994, the single-precision
+\* division the reader performs gives 3.0 (header word: 3 sub-frames)
+C_ntsc == BuildR(<<p1>>, <<a1>>, 3, 2, <<143, 194, 111, 66>>, <<235, 209, 51, 67>>)
 MkP(n, d, l, t, dim, v) == [n |-> n, d |-> d, l |-> l, t |-> t, dim |-> dim, v |-> v]
 LongDesc(n) == [i \in 1..n |-> 65 + (i % 26)]
 ExtraGroup ==
@@ -65,7 +69,7 @@ C_ana    == Build(<<>>, <<a1>>, 2, 2)
 C_none   == Build(<<>>, <<>>, 0, 0)
 Contents == <<   \* (small: pre-evaluated once)
   C_small, AddG(C_small, ExtraGroup), WithEvents(C_two), Shifted(C_two), Relabel(C_two, -1), Relabel(C_pts, 1),
-  AnalogEmpty(C_pts), C_ana, C_none, AddG(C_none, ExtraGroup), RelabelA(C_ana, -1), RelabelA(C_two, -1), RelabelA(C_small, 1), AddG(C_pts, BigGroup) >>
+  AnalogEmpty(C_pts), C_ana, C_none, AddG(C_none, ExtraGroup), RelabelA(C_ana, -1), RelabelA(C_two, -1), RelabelA(C_small, 1), AddG(C_pts, BigGroup), C_ntsc >>
 (* ---- layouts ---- *)
 L0(n) == DefaultLayout(n)
 Layouts(n) == <<
@@ -124,6 +128,7 @@ ASSUME Lemma_S16_LE16 /\ Lemma_U16_LE16 /\ Lemma_S8_Low /\ Lemma_S16_Range /\ Le
 
 MC_PNames == {}  MC_ANames == {}  MC_PRates == {}  MC_ARates == {}
 MC_FrameKinds == {}  MC_ColKinds == {}  MC_Tags == {1}  MC_CallerIds == {}  MC_UserParams == <<>>  MC_LockNames == {}
+MC_AliasGroups == {}
 Dump == ~Sampled(Len(hist)) \/ PrintT(ToJson([path |-> hist, op |-> lastOp', out |-> lastOut', post |-> Abs(obj'),
                        bytes |-> IF lastOp'.op = "Reload" /\ lastOut' # "range_error" THEN WriterModel(obj) ELSE <<>>]))
 =========================================================================
